@@ -293,7 +293,7 @@ ASSUME = ['the real squid binary (ASan build of the current tree) runs under the
           'the oracle is computed from the case specification (which directives were sent), not from Squid\'s parse of them']
 RULE = ('quick: every subset of {no-store, private, public, must-revalidate, s-maxage=60, max-age=60, no-cache} (128) x request '
         '{plain, Cache-Control: no-store} x Authorization {absent, present} x freshness {none, Expires+Last-Modified}, plus %d response and %d '
-        'request spellings of no-store/private; thorough adds freshness {Last-Modified only, Expires only}, a different second request '
+        'request spellings of no-store/private, each with an origin that answers revalidations with 200 and with one that answers 304; thorough adds freshness {Last-Modified only, Expires only}, a different second request '
         '{bare, other credentials}, 5 more cachable status codes and the spellings under Authorization / other response directives; '
         'non-trivial = cases in which request 1 was forwarded and answered with the planted status and request 2 got a complete '
         'response (so the store decision and the hit path both ran)' % (len(RESP_SYNTAX), len(REQ_SYNTAX)))
